@@ -203,8 +203,11 @@ def list_append(st, lst, x):
     # old-array terms give rise to the corresponding new-array terms (E-matching in both directions)
     st.assume(z3.ForAll([k], z3.Implies(z3.And(0 <= k, k < s.n), z3.Select(narr, k) == z3.Select(s.arr, k)),
                         patterns=[z3.Select(s.arr, k)]))
-    st.assume(z3.ForAll([k], z3.Implies(z3.And(0 <= k, k < s.n), z3.Select(narr, k) == z3.Select(s.arr, k)),
-                        patterns=[z3.Select(narr, k)]))
+    try:
+        st.assume(z3.ForAll([k], z3.Implies(z3.And(0 <= k, k < s.n), z3.Select(narr, k) == z3.Select(s.arr, k)),
+                            patterns=[z3.Select(narr, k)]))
+    except z3.Z3Exception:
+        pass        # the stored value / index contains a term that is not allowed in a pattern
     st.list_store(lst.z, et, SeqV(narr, s.n + 1))
 
 
